@@ -60,6 +60,10 @@ type Channel struct {
 	// lastPkgRx/Tx are the last packages sent to/received from the TDS
 	// server
 	lastPkgRx, lastPkgTx Package
+	// rxDoneFinal is true if the last package passed to the consumer in
+	// the response currently being received was a DonePackage with
+	// TDS_DONE_FINAL.
+	rxDoneFinal bool
 	// packageCh stores Packages as they are parsed from Packets
 	packageCh chan Package
 
@@ -647,9 +651,11 @@ func (tdsChan *Channel) tryParsePackage() bool {
 			// TDS doesn't always send a DonePackage with TDS_DONE_FINAL
 			// - usually only when a procedure with multiple commands is
 			// being executed.
-			if lastPkg, ok := tdsChan.lastPkgRx.(*DonePackage); !ok || lastPkg.Status != TDS_DONE_FINAL {
+			if !tdsChan.rxDoneFinal {
 				tdsChan.packageCh <- &DonePackage{Status: TDS_DONE_FINAL}
 			}
+			// The next package belongs to the next response.
+			tdsChan.rxDoneFinal = false
 		}
 		return false
 	}
@@ -703,6 +709,7 @@ func (tdsChan *Channel) tryParsePackage() bool {
 	}
 
 	tdsChan.packageCh <- pkg
+	tdsChan.rxDoneFinal, _ = isDoneFinal(pkg)
 	tdsChan.lastPkgRx = pkg
 	return true
 }
